@@ -23,7 +23,7 @@ ASSUMPTIONS = ["only satisfiable build files are generated (an unsatisfiable one
                "0.9 contour]",
                "the mean pair size along the restrained path is recomputed from the captured residue sizes",
                "geometric in/out comparisons are closed (+-1e-9)"]
-CASE_TIMEOUT = 45
+CASE_TIMEOUT = 40
 WALL = {"quick": 1200, "thorough": 10800}
 MAX_TIMEOUTS = {"quick": 2, "thorough": 40}
 REQUIRED = {"geometric_checks": 300, "direction_checks": 150, "direction_checks_wrapped": 15, "distance_checks": 60,
@@ -69,7 +69,7 @@ def setup():
 
 
 def plan(tier, seed):
-    n = 330 if tier == "quick" else 6000
+    n = 780 if tier == "quick" else 6000
     modes = ["geom", "geom", "geom_edge", "rw", "rw", "rw_small", "dist", "cycle", "cycle", "pers", "mix", "two_dist"]
     return [[modes[i % len(modes)], i] for i in range(n)]
 
@@ -203,7 +203,7 @@ def run_case(cid, rng, workdir):
         restr.append(("cycle", kw["cycle_tol"]))
         bl = []
     elif mode == "pers":
-        lp = rng.choice([0.5, 1.0, 2.0, 4.0])
+        lp = rng.choice([0.3, 0.5, 1.0])      # stiffer chains are sampled near full extension, which the walk almost never reaches
         bl.extend(["[ persistence_length ]", "WCM %s %d %d" % (lp, 0, nres - 1)])
         restr.append(("pers", 0, nres - 1, lp))
     else:
